@@ -73,6 +73,10 @@ type In struct {
 	HSlowMs      int      `json:"hslow_ms"`       // plugin request handlers sleep this long
 	Calls        []CallIn `json:"calls"`
 	Seed         int64    `json:"seed"`
+	// GiveUp goroutines issue runtime requests no plugin is subscribed to (RemoveContainer) under a
+	// context that is cancelled a moment later - a caller that gives up while it waits for the
+	// adaptation lock. Giving up must not disturb whoever holds the lock.
+	GiveUp int `json:"giveup"`
 	// the lostconn stream (lostconn.go): the caller of the call marked `gone` (plugin 0) goes away
 	// while the callback is running for it; the other plugins' updates and the runtime's requests
 	// are issued while the callback is STILL running
@@ -480,6 +484,21 @@ func runUpd(in In, dir string) (obs Obs) {
 				default:
 					r.A.StartContainer(ctx, &api.StateChangeEvent{Pod: pod, Container: c})
 				}
+			}
+		}()
+	}
+	for g := 0; g < in.GiveUp; g++ {
+		g := g
+		wgR.Add(1)
+		go func() {
+			defer wgR.Done()
+			rnd := rand.New(rand.NewSource(in.Seed*37 + int64(g)))
+			for k := 0; k < 4*in.R; k++ {
+				ctx, cancel := context.WithCancel(context.Background())
+				t := time.AfterFunc(time.Duration(20+rnd.Intn(1500))*time.Microsecond, cancel)
+				r.A.RemoveContainer(ctx, &api.StateChangeEvent{Pod: pod, Container: rt.Ctr(fmt.Sprintf("gone%d-%d", g, k), "pod0")})
+				t.Stop()
+				cancel()
 			}
 		}()
 	}
@@ -973,6 +992,15 @@ func generate(o *hx.Opts) []In {
 		in.DwellUs = []int{0, 5, 20, 50, 200}[r.Intn(5)]
 		in.HDwellUs = []int{0, 5, 20, 50}[r.Intn(4)]
 		in.Early = r.Intn(4) == 0
+		if i%3 == 1 {
+			in.GiveUp = 1 + r.Intn(2)
+			if in.DwellUs < 50 {
+				in.DwellUs = 200 // the lock must be held for a while for a waiter to give up
+			}
+			if in.R == 0 || in.G == 0 {
+				in.G, in.R = 1, 5
+			}
+		}
 		per := 3 + r.Intn(8)
 		if i%4 == 0 {
 			per = 20 / in.U
@@ -1053,5 +1081,11 @@ func Run(o *hx.Opts, w *lineio.Writer) error {
 		}
 		os.RemoveAll(dir)
 		return &lineio.Case{ID: fmt.Sprintf("c19-%s-%d#%d", in.Kind, in.Idx, i), In: in, Obs: obs}
-	}, nil)
+	}, func(c rt.Crashed) *lineio.Case {
+		// the worker process (which hosts the real Adaptation) died while running case c.At: the
+		// case itself is the record, so that it replays
+		in := cases[c.At]
+		return &lineio.Case{ID: fmt.Sprintf("c19-%s-%d#%d-crashed", in.Kind, in.Idx, c.At), In: in,
+			Obs: Obs{Status: "crashed", Note: c.Note, Fn: []FnObs{}, Calls: []CallObs{}, H: []HObs{}}}
+	})
 }
